@@ -103,6 +103,10 @@ def hostile(ctx):
             tz = rng.choice([datetime.timezone(datetime.timedelta(minutes=off)), datetime.timezone(datetime.timedelta(minutes=off, seconds=30)),
                              Tz(off, None), Tz(off, "x]y"), Tz(off, "A&B<")])
             try:
+                if rng.random() < 0.15:
+                    # the two ends of the calendar, where rounding to milliseconds or shifting the zone has nowhere to carry to
+                    return rng.choice([datetime.datetime.max, datetime.datetime(9999, 12, 31, 23, 59, 59, rng.choice([999499, 999500, 0])),
+                                       datetime.datetime.min, datetime.datetime(1, 1, 1, 0, 0, 0, 499)]).replace(tzinfo=tz)
                 return datetime.datetime(y, rng.randint(1, 12), rng.randint(1, 28), rng.randint(0, 23), rng.randint(0, 59), rng.randint(0, 59),
                                          rng.choice([0, 999999, 999500, 499]), tzinfo=tz)
             except Exception:
